@@ -212,7 +212,7 @@ def run(ctx):
     big, small = cfg(40), cfg(12)
     # tandem repeats / low-complexity proteins: a peptide occurs at several, overlapping offsets of its protein
     rep = [cfg(14, list('AK')), cfg(16, list('KRE')), cfg(12, list('KDP'))]
-    for i in range(ctx.n(4000, 150000)):
+    for i in range(ctx.n(10000, 150000)):
         P = gp.gen_pep(rng, rng.choice(rep) if i % 5 == 4 else small if i % 2 else big)
         rule = rng.choice(RULES)
         semi = rng.random() < 0.3
